@@ -227,7 +227,7 @@ class Tokenizer:
                         if seen == n:
                             break
 
-        return [lines[n] for n in line_numbers]
+        return [lines.get(n, "") for n in line_numbers]  # an error at end of input sits one line past the last
 
     def mark(self) -> Mark:
         return self._index
